@@ -358,7 +358,10 @@ func GenChain(r *crsgen.R, fwd func(s *Scenario) []*[2]float64) []Scenario {
 		if t, what := crsgen.Twin(r, d); t != nil {
 			ok := true
 			for _, gp := range greenwich {
-				if math.Abs(gp[0]-t.PMDeg) > 179.5 {
+				// the positions must lie inside the usable region of the twin as well: with another
+				// prime meridian the same +lon_0 is another meridian
+				dl := math.Mod(gp[0]-t.PMDeg-t.Lon0+540, 360) - 180
+				if math.Abs(wrap180(gp[0]-t.PMDeg)) > 179.5 || math.Abs(dl) > t.DLon*0.9 {
 					ok = false
 				}
 			}
@@ -385,6 +388,11 @@ func GenChain(r *crsgen.R, fwd func(s *Scenario) []*[2]float64) []Scenario {
 		}
 	}
 	return out
+}
+
+func wrap180(v float64) float64 {
+	v = math.Mod(v+540, 360) - 180
+	return v
 }
 
 func runLive(c *core.Ctx) {
